@@ -45,16 +45,23 @@ RESTART_KNOBS = dict(KNOBS, crash_on_request_p=0.5, drop_p=[0.0],
 RESTART_COUNT = {'quick': 160, 'thorough': 3000}
 
 
+# the general family again with slow handshakes (each XML-RPC of a handshake takes 0 - 3 s, L3 engine) and instance
+# restarts: requests are emitted and answered while peers are being checked again
+SLOW_KNOBS = dict(KNOBS, handshake_skew=[0.0, 0.3, 1.0, 2.0, 3.0], actions=KNOBS['actions'] + ['restart', 'restart'])
+
+
 def plan(tier, seed):
     return [{'seed': seed * 1000003 + i} for i in range(COUNT[tier])] + \
         [{'seed': seed * 1000003 + 700000 + i, 'family': 'target-restarts-during-job'}
-         for i in range(RESTART_COUNT[tier])]
+         for i in range(RESTART_COUNT[tier])] + \
+        [{'seed': seed * 1000003 + 900000 + i, 'family': 'slow-handshake'} for i in range(COUNT[tier] // 8)]
 
 
 def run_case(case):
     tracker = Tracker()
     mon = JobTerminationMonitor(tracker)
-    run = Run(case, RESTART_KNOBS if case.get('family') == 'target-restarts-during-job' else KNOBS, [tracker, mon])
+    run = Run(case, {'target-restarts-during-job': RESTART_KNOBS, 'slow-handshake': SLOW_KNOBS}.get(case.get('family'), KNOBS),
+              [tracker, mon])
     violations = run.execute()
     nontrivial = mon.counters.get('given_up_jobs', 0) > 0 or run.counters.get('dropped_process_publications', 0) > 0
     return {'violations': violations, 'counters': run.counters,
